@@ -3,6 +3,7 @@ import KitModel.Containers
 import KitModel.Generated.C14
 import KitProofs.Lemmas.Containers
 import KitProofs.Lemmas.Buffered
+import KitProofs.Lemmas.LinCheck
 /-!
 # C14 — containers refine their models
 
@@ -222,6 +223,28 @@ theorem getOrCreate_first_section_readonly (k : Nat) (c : Int) (s s' : AMSt) (ou
     (h : amImpl.sect (.first (.getOrCreate k c)) s s' out) : s' = s := h.1
 
 
+/-! ## the executable checker that judges recorded Go histories is sound -/
+
+/-- **Checker soundness.** Whenever `linCheck` (the function `kitdrv C14` runs on the stamped
+histories recorded from the real objects) answers `true`, the history is linearizable in the
+sense of `Linearizable` — whatever result hints the invocations carry. -/
+theorem lin_checker_sound [BEq σ] [BEq ι] [BEq ρ] [LawfulBEq ρ] (S : Spec σ ι ρ) (h : List (HEv ι ρ))
+    (hc : linCheck S h = true) : Linearizable S (h.map HEv.toEv) :=
+  linCheck_sound S h hc
+
+/-- the four instances the driver runs -/
+theorem lin_checker_sound_instances :
+    (∀ h, linCheck mapSpec h = true → Linearizable mapSpec (h.map HEv.toEv)) ∧
+    (∀ h, linCheck ctrSpec h = true → Linearizable ctrSpec (h.map HEv.toEv)) ∧
+    (∀ h, linCheck amSpec h = true → Linearizable amSpec (h.map HEv.toEv)) ∧
+    (∀ h, linCheck slSpec h = true → Linearizable slSpec (h.map HEv.toEv)) :=
+  ⟨linCheck_sound _, linCheck_sound _, linCheck_sound _, linCheck_sound _⟩
+
+example : linCheck mapSpec [.inv 0 (.store 1 5) .unit, .inv 1 (.load 1) (.val 5 true), .ret 1 (.val 5 true), .ret 0 .unit] = true := by
+  decide
+example : linCheck mapSpec [.inv 0 (.store 1 5) .unit, .ret 0 .unit, .inv 1 (.load 1) (.val 0 false), .ret 1 (.val 0 false)] = false := by
+  decide
+
 /-! ## ring.Ring = container/ring, on the heap model -/
 section ring
 open Kit.Ring
@@ -364,6 +387,21 @@ example : ∃ h : Heap Int, IsRing h [0, 1, 2] ∧ IsRing h [3, 4] := by
       (fun x hx => (fr x (by simp at hx; omega)).2.1) (by show (Ring.new (#[] : Heap Int) 3 0).1.size ≤ (Ring.new (Ring.new (#[] : Heap Int) 3 0).1 ((1 + 1 : Nat) : Int) 0).1.size; rw [(new_spec (Ring.new (#[] : Heap Int) 3 0).1 1 0).2.1]; omega)
   · simpa [hs, List.range'_succ] using hB
 
+/-- **`Do`** calls `f` on the values in listing order starting at the receiver -/
+theorem ring_do {α : Type} [Inhabited α] {h : Heap α} {a : Nat} {xs : List Nat} (hr : IsRing h (a :: xs)) :
+    doAll h (some a) = (a :: xs).map (vl h) :=
+  doAll_ring hr
+
+/-- "`Move` moves `n % r.Len()` elements": a full circle is the identity … -/
+theorem ring_move_full_circle {α : Type} {h : Heap α} {l : List Nat} (hr : IsRing h l) {x : Nat} (hx : x ∈ l) :
+    move h x (l.length : Int) = x :=
+  move_full_circle hr hx
+
+/-- … and moving backward undoes moving forward (and vice versa) -/
+theorem ring_move_backward_inverse {α : Type} {h : Heap α} {l : List Nat} (hr : IsRing h l) {x : Nat} (hx : x ∈ l) (k : Nat) :
+    move h (move h x (k : Int)) (-(k : Int)) = x ∧ move h (move h x (-(k : Int))) (k : Int) = x :=
+  move_neg_inverse hr hx k
+
 end ring
 
 /-! ## ring.Buffered = FIFO queue -/
@@ -407,6 +445,24 @@ theorem buffered_removeFront_on_empty_witness :
     Queue.run [] [.removeFront, .len, .append (some 7), .len, .front] =
       [.val none, .int 0, .unit, .int 1, .val (some 7)] := by
   decide
+
+/-- memory: the committed count is never negative nor larger than the ring, and the number of
+free slots never exceeds `max(initialSize, 2·bufferSize)` (sizes after raising to 1) -/
+theorem buffered_free_slots_bounded (initial bsize : Int) (ops : List BOp) :
+    let b := ops.foldl (fun b op => (b.step op).1) (Buf.new initial bsize)
+    0 ≤ b.len ∧ b.len ≤ (Ring.len b.heap b.ring : Int) ∧
+    (Ring.len b.heap b.ring : Int) - b.len ≤ max (max initial 1) (2 * max bsize 1) := by
+  have e1 : (if initial < 1 then 1 else initial) = max initial 1 := by split <;> omega
+  have e2 : (if bsize < 1 then 1 else bsize) = max bsize 1 := by split <;> omega
+  have h0 := BInvB.new initial bsize
+  rw [e1, e2] at h0
+  suffices H : ∀ b q, BInvB (max bsize 1) (max (max initial 1) (2 * max bsize 1)) b q →
+      ∃ q', BInvB (max bsize 1) (max (max initial 1) (2 * max bsize 1)) (ops.foldl (fun b op => (b.step op).1) b) q' by
+    obtain ⟨q', hq'⟩ := H _ _ h0
+    exact hq'.bounds
+  induction ops with
+  | nil => exact fun b q h => ⟨q, h⟩
+  | cons op ops ih => exact fun b q h => ih _ _ (h.step (by omega) (by omega) op)
 
 end buffered
 
